@@ -10,12 +10,16 @@ from .lib.reachrule import ReachRule
 
 CONFIGS_QUICK = ["A"]
 CONFIGS_THOROUGH = ["A", "R"]
-TECHNIQUE = "field-read exhaustiveness of the parsed serde-attribute structs over the proc-macro crate's MIR; panic reachability and API-misuse rules (identifier construction from arbitrary strings, splitting at letters) in the naming code"
-LEVEL_TEXT = ("Decides clauses C16-a/b: every field of the derive's ContainerAttributes / FieldAttributes / VariantAttributes that stands for a serde attribute "
-              "changing the JSON shape is read somewhere outside its parser (an attribute that is parsed but never consulted cannot be honoured); the case "
-              "converters reach no panicking string slicing that is not guarded, property and variant names are never turned into `Ident`s from converted or "
-              "user-given strings (serde names need not be identifiers: kebab-case, `rename = \"a-b\"`), and an identifier is never split at letters (which "
-              "would drop them). Decides these clauses, not agreement of the derived schema with serde_derive for all type definitions.")
+TECHNIQUE = ("field-read exhaustiveness of the parsed serde-attribute structs over the proc-macro crate's MIR; panic reachability and API-misuse rules (identifier "
+             'construction from arbitrary strings, splitting at letters) in the naming code; decision structure of the word-boundary test in the variant case '
+             'converter')
+LEVEL_TEXT = ("Decides clauses C16-a/b/c: every field of the derive's ContainerAttributes / FieldAttributes / VariantAttributes that stands for a serde attribute "
+              'changing the JSON shape is read somewhere outside its parser (an attribute that is parsed but never consulted cannot be honoured); the case converters'
+              ' reach no panicking string slicing that is not guarded, property and variant names are never turned into `Ident`s from converted or user-given strings'
+              ' (serde names need not be identifiers: kebab-case, `rename = "a-b"`), and an identifier is never split at letters (which would drop them); the '
+              "snake_case variant converter (on which kebab and the SCREAMING forms are built) pushes its `_` separator under exactly serde_derive's two per-"
+              'character tests -- upper-case and not the first character -- and pushes the lower-cased character unconditionally. Decides these clauses, not '
+              'agreement of the derived schema with serde_derive for all type definitions.')
 
 ATTR = "ohkami_macros::openapi::attributes::serde::attributes::"
 # serde attributes that do not change the serialized shape / the set of accepted documents described by the schema
@@ -42,6 +46,7 @@ def run(ck, progs):
         ck.config = cfg
         ck.guard("C16-a EXHAUSTIVE attributes", lambda: c16a(ck, prog))
         ck.guard("C16-b REACH naming", lambda: c16b(ck, prog))
+        ck.guard("C16-c DECISION word boundary", lambda: c16c(ck, prog))
     ck.config = None
 
 
@@ -111,3 +116,61 @@ def c16b(ck, prog):
                   "" if ok else "%s builds an `Ident` from `%s`: serde names need not be identifiers (`rename_all = \"kebab-case\"`, `rename = \"my-name\"`), and Ident::new panics on them, so the derive fails on a valid type" % (f.name, d[:70]),
                   how="Ident::new(%s)" % d[:40])
     ck.stat("Ident::new sites examined", n)
+
+
+def c16c(ck, prog):
+    """serde's RenameRule::apply_to_variant for snake_case (and everything built on it) puts `_` before *every* upper-case
+    character except the first one, whatever precedes it (`HTTPServer` -> `h_t_t_p_server`). The separator push in the
+    derive's converter must be decided, per character, by exactly these two tests and nothing else."""
+    R = "C16-c DECISION word boundary"
+    from .lib.bound import natural_loops
+    f = prog.one(r"serde::case::Case::apply_to_variant$")
+    loops = natural_loops(f)
+    seps = []
+    for c in f.calls():
+        if c.name != "push" or len(c.args) < 2:
+            continue
+        ca = f.const_args(c)
+        if len(ca) > 1 and ca[1] and ca[1].get("ch") == "_":
+            seps.append(c)
+    if not seps:
+        raise AnchorLost("no `push('_')` in Case::apply_to_variant")
+    for c in seps:
+        inner = [h for h, body in loops.items() if c.bb in body]
+        if not inner:
+            ck.ob(R, "separator:in-loop", False, f.loc(c.sp), "the `_` separator is pushed outside a per-character loop")
+            continue
+        h = min(inner, key=lambda x: len(loops[x]))
+        body = loops[h]
+        conds = []
+        item = None
+        for fa in guards.facts_at(f, prog, c.bb):
+            if fa.sw_bb not in body:
+                continue
+            if fa.kind == "variant" and fa.allowed == {"Some"} and fa.steps and fa.steps[-1][0] == "call" and fa.steps[-1][1].name == "next":
+                item = fa
+                continue  # the loop's own `while let Some(..) = it.next()`
+            if fa.kind == "boolcall" and fa.call.name == "is_uppercase" and fa.truth and "next(" in decision.describe_deep(f, fa.call.args[0], 4):
+                conds.append("upper")
+            elif fa.kind == "cmp" and ((fa.op == "Gt" and guards.const_int(fa.rhs[-1][1]) == 0 if fa.rhs and fa.rhs[-1][0] == "const" else False)
+                                      or (fa.op == "Ne" and fa.rhs and fa.rhs[-1][0] == "const" and guards.const_int(fa.rhs[-1][1]) == 0)) \
+                    and "next" in guards.describe_origin(f, fa.lhs):
+                conds.append("not-first")
+            else:
+                conds.append("other:%s" % (fa.kind + ":" + (fa.call.name if fa.kind == "boolcall" else str(getattr(fa, "truth", "")))))
+        ok = sorted(conds) == ["not-first", "upper"]
+        ck.ob(R, "separator:conditions", ok, f.loc(c.sp),
+              "" if ok else "the `_` separator of snake_case variant names is pushed under the per-character conditions %r; serde_derive pushes it exactly when the character "
+              "is upper-case and not the first (so `HTTPServer` is `h_t_t_p_server`): any other or additional condition names variants differently from what serde reads and writes" % sorted(conds),
+              how="push('_') iff index > 0 && ch.is_uppercase()")
+    # the character itself is pushed on every iteration
+    pushes = [c for c in f.calls() if c.name == "push" and c not in seps and any(c.bb in loops[h] for h in loops)]
+    for c in pushes:
+        h = min([h for h in loops if c.bb in loops[h]], key=lambda x: len(loops[x]))
+        extra = [fa for fa in guards.facts_at(f, prog, c.bb) if fa.sw_bb in loops[h] and not (fa.kind == "variant" and fa.allowed == {"Some"})]
+        d = decision.describe_deep(f, c.args[1], 4)
+        ok = not extra and re.match(r"to_(ascii_)?lowercase\(next\(", d) is not None
+        ck.ob(R, "character:always-pushed", ok, f.loc(c.sp), "" if ok else "the converted character `%s` is pushed under %d extra condition(s) / is not the lower-cased loop character" % (d[:60], len(extra)),
+              how="push(ch.to_ascii_lowercase()) on every iteration")
+    ck.floor(R, "separator pushes", len(seps), 1)
+    ck.floor(R, "character pushes", len(pushes), 1)
